@@ -80,9 +80,11 @@ def prepare(res, project, prog, rng, tier):
     dry_cfg = dict(strict=False, threshold=0, warn="all", H=False, T=False)
     dry = dc.run_inprocess(project, dc.argv_for(dry_cfg, project.target_arg, "results"))
     if dry["crash"] is not None:
-        res.skipped_outside_fragment += 1
-        res.count("skipped:dry-run-crash:" + str(dry["crash"][1]))
-        return []
+        # no event list for the model; the 16 settings are still compared on exit / stdout / crash
+        res.count("dry-run-crash:" + str(dry["crash"][1]))
+        a = rng.choice([dict(strict=False, threshold=0), dict(strict=True, threshold=0)])
+        return [{"project": project, "prog": prog, "evs": None, "a": a,
+                 "stats_ix": [4 * i + rng.randrange(4) for i in range(4)], "dry_events": []}]
     if any(e["stage"] not in ("analysis", "simplification") or e["where"] is None for e in dry["events"]):
         res.skipped_outside_fragment += 1
         res.count("skipped:diagnostic-outside-analysis-stages")
@@ -90,11 +92,23 @@ def prepare(res, project, prog, rng, tier):
     evs = dc.model_events(dry["events"])
     total = dry["buckets"][0] + dry["buckets"][2]
     recs = []
-    for a in analysis_cfgs(total, rng, tier):
+    cfgs = analysis_cfgs(total, rng, tier)
+    if getattr(project, "force_threshold_total", False) and total > 0:
+        cfgs = [dict(strict=False, threshold=total)] + (cfgs if tier != "quick" else [])
+    for a in cfgs:
         stats_ix = [4 * i + rng.randrange(4) for i in range(4)]   # one -o stats run per warning level
         recs.append({"project": project, "prog": prog, "evs": evs, "a": a, "stats_ix": stats_ix,
                      "dry_events": dry["events"]})
     return recs
+
+
+def crashed(r):
+    return any(l.startswith("Traceback") for l in r["junk"])
+
+
+def crash_type(r):
+    last = r["junk"][-1] if r["junk"] else ""
+    return last.split(":")[0].strip() or "unknown"
 
 
 def jobs_of(rec):
@@ -106,27 +120,23 @@ def jobs_of(rec):
 
 def judge(res, model, rec, cli):
     project, prog, evs, a = rec["project"], rec["prog"], rec["evs"], rec["a"]
-    case = {"program": prog, "layout": "deep", "analysis_cfg": a, "events": evs}
+    case = {"program": prog, "layout": project.layout, "analysis_cfg": a, "events": evs}
     runs, stats_runs = cli[:16], cli[16:]
     res.evaluations += 16
     if evs:
-        res.nontrivial.add(common.digest({"p": prog, "a": a}))
-    if any(any(l.startswith("Traceback") for l in r["junk"]) for r in cli):
-        res.skipped_outside_fragment += 1
-        res.count("skipped:crash")
-        return
-    ips = [dc.run_inprocess(project, dc.argv_for(full_cfg(a, s), project.target_arg, "results")) for s in SETTINGS]
-    if any(ip["crash"] is not None for ip in ips):
-        res.skipped_outside_fragment += 1
-        res.count("skipped:crash")
-        return
-    res.count(f"analysis:{'strict' if a['strict'] else 'lax'}:thr={a['threshold']}")
-    res.count(f"exit:{runs[0]['exit']}")
+        res.nontrivial.add(common.digest({"p": prog, "a": a, "l": project.layout}))
+    res.count(f"layout:{project.layout}")
 
     def viol(sig, **kw):
         res.violations.append({"signature": sig, "case": case, **kw})
 
-    # ---------------- property oracle, on real outputs only
+    # ---------------- property oracle, on real outputs only (1): outcome of the 16 runs
+    crashes = [crashed(r) for r in runs]
+    f = differing_flags(crashes)
+    if f:
+        kinds = sorted({crash_type(r) for r in runs if crashed(r)})
+        viol(f"traceback-depends-on:{f}:{'+'.join(kinds)}",
+             outcome={skey(s): ("traceback " + crash_type(r)) if crashed(r) else f"exit {r['exit']}" for s, r in zip(SETTINGS, runs)})
     stdouts = [r["stdout"] for r in runs]
     f = differing_flags(stdouts)
     if f:
@@ -134,6 +144,23 @@ def judge(res, model, rec, cli):
     f = differing_flags([r["exit"] for r in runs])
     if f:
         viol(f"exit-status-depends-on:{f}", exits={skey(s): r["exit"] for s, r in zip(SETTINGS, runs)})
+    if any(crashed(r) for r in cli):
+        # a traceback is C07's business when it happens at every setting; either way nothing below applies
+        res.skipped_outside_fragment += 1
+        res.count("skipped:traceback-at-" + ("every-setting" if all(crashes) else "some-settings"))
+        return
+    if evs is None:
+        res.internal_errors.append({"what": "in-process dry run crashed but no CLI run did", "case": case})
+        return
+    ips = [dc.run_inprocess(project, dc.argv_for(full_cfg(a, s), project.target_arg, "results")) for s in SETTINGS]
+    if any(ip["crash"] is not None for ip in ips):
+        res.internal_errors.append({"what": "in-process run crashed but no CLI run did", "case": case,
+                                    "crash": [ip["crash"] for ip in ips if ip["crash"] is not None][:1]})
+        return
+    res.count(f"analysis:{'strict' if a['strict'] else 'lax'}:thr={a['threshold']}")
+    res.count(f"exit:{runs[0]['exit']}")
+
+    # ---------------- property oracle (2)
     f = differing_flags([ip["exit"] for ip in ips])
     if f and not differing_flags([r["exit"] for r in runs]):
         viol(f"exit-status-depends-on:{f}:in-process", exits={skey(s): ip["exit"] for s, ip in zip(SETTINGS, ips)})
@@ -184,7 +211,7 @@ def judge(res, model, rec, cli):
     reqs = [("diag_run", {"cfg": c15mod.model_cfg(full_cfg(a, s)), "events": evs}) for s in SETTINGS]
     # rendering: unformatted path of line k at (w, H=F, T=F) -> rendered at (w, H, T)
     rreqs, rmeta = [], []
-    root = path_parts(str(project.cwd.resolve()))
+    root = path_parts(str(project.root.resolve()))
     home = path_parts(str(project.home.resolve()))
     for wi, w in enumerate(dc.WARN):
         plain = [l for l in runs[4 * wi]["lines"] if l["level"] != "rattr"]
@@ -194,7 +221,7 @@ def judge(res, model, rec, cli):
             if len(cur) != len(plain):
                 continue  # already reported by the oracle above
             for l0, l1 in zip(plain, cur):
-                full = l0["file"] if l0["file"].startswith("/") else str(project.cwd.resolve() / l0["file"])
+                full = l0["file"] if l0["file"].startswith("/") else str(project.root.resolve() / l0["file"])
                 rreqs.append(("diag_render", {"H": s["H"], "T": s["T"], "root": root, "home": home, "path": path_parts(full)}))
                 rmeta.append((skey(s), l0["file"], l1["file"]))
     outs = model.batch(reqs + rreqs)
@@ -237,15 +264,29 @@ def run(tier, seed, build):
                 "package) x all 16 settings of -w/-H/-T x strict/threshold settings drawn from {permissive, threshold=total, "
                 "threshold=total-1, strict}; non-trivial = distinct (program, strict/threshold) whose dry run emits >= 1 diagnostic")
     rng = random.Random(seed)
-    n = 20 if tier == "quick" else 150
+    n = 16 if tier == "quick" else 150
     fixed = [p for p in c15mod.fixed_programs() if p["fatal"] or len(p["target"]) + len(p["import"]) + len(p["simpl"]) > 1]
-    progs = fixed + [dc.gen_program(rng, fatal_rate=0.08, empty_rate=0.02) for _ in range(n)]
+    progs = [(p, "deep") for p in fixed]
+    # every path shape gets: diagnostics without any error (so -w decides whether anything is printed),
+    # import-only badness (so a mis-attributed bucket shows), a mix, and random programs
+    shaped = [
+        {"target": ["undefined_name", "method_call"], "import": ["undefined_name", "class_not_stored"], "simpl": ["stdlib_call"], "fatal": None},
+        {"target": ["plain"], "import": ["undefined_name", "undefined_name", "nested_def"], "simpl": ["call_ok"], "fatal": None},
+        {"target": ["nested_def", "undefined_name"], "import": ["method_call"], "simpl": ["call_ignored"], "fatal": None},
+    ]
+    shapes = [l for l in dc.LAYOUTS if l not in ("flat", "deep")]
+    for lay in shapes:
+        progs += [(p, lay) for p in shaped]
+    for k in range(n):
+        lay = (["deep"] + shapes)[k % (1 + len(shapes))] if k % 2 else "deep"
+        progs.append((dc.gen_program(rng, fatal_rate=0.08, empty_rate=0.02), lay))
     model = common.Model()
     with dc.scratch_dir("rattr-c16-") as base:
         base = base.resolve()
         recs = []
-        for i, prog in enumerate(progs):
-            project = dc.Project(base / f"p{i}", prog, layout="deep")
+        for i, (prog, lay) in enumerate(progs):
+            project = dc.Project(base / f"p{i}", prog, layout=lay)
+            project.force_threshold_total = lay != "deep" and prog is shaped[0]
             try:
                 recs += prepare(res, project, prog, rng, tier)
             except Exception as exc:
@@ -277,11 +318,11 @@ def replay(path):
     if not prog or not a:
         return 0
     with dc.scratch_dir("rattr-c16-replay-") as base:
-        project = dc.Project(base.resolve() / "p", prog, layout="deep")
+        project = dc.Project(base.resolve() / "p", prog, layout=case.get("layout", "deep"))
         print("TARGET:\n" + project.target_path.read_text())
         print("IMPORT (padding stripped):\n" + project.helper_path.read_text().lstrip("\n"))
         for s in SETTINGS:
             r = dc.run_cli(project, dc.argv_for(full_cfg(a, s), project.target_arg, "results"))
-            print(skey(s), "exit", r["exit"], "stdout", common.digest(r["stdout"]),
+            print(skey(s), ("TRACEBACK " + crash_type(r)) if crashed(r) else "", "exit", r["exit"], "stdout", common.digest(r["stdout"]),
                   "stderr", [f"{l['level']}:{l['file']}:{l['line']}" for l in r["lines"]])
     return 0
